@@ -227,6 +227,8 @@ func mutants(w *warm, base hist.TxSpec, rng *rand.Rand) []mutant {
 	})
 	add("fee-currency", func(st *action.SignedTx) bool { st.Fee.Price.Currency = "VT"; return true })
 	add("fee-gas", func(st *action.SignedTx) bool { st.Fee.Gas++; return true })
+	add("fee-gas-tripled", func(st *action.SignedTx) bool { st.Fee.Gas *= 3; return true })
+	add("fee-gas-negative", func(st *action.SignedTx) bool { st.Fee.Gas = -1; return true })
 	add("memo", func(st *action.SignedTx) bool { st.Memo += "x"; return true })
 	add("type", func(st *action.SignedTx) bool {
 		if st.Type == action.SEND {
@@ -257,6 +259,27 @@ func mutants(w *warm, base hist.TxSpec, rng *rand.Rand) []mutant {
 			return false
 		}
 		st.Signatures[0].Signed = append(append([]byte{}, st.Signatures[0].Signed...), 0x90, 0x00)
+		return true
+	})
+	add("signature-s-replaced-by-n-minus-s", func(st *action.SignedTx) bool {
+		// the other root of a secp256k1 signature (r, n-s) verifies under plain ECDSA; only the low one is valid
+		if len(st.Signatures) == 0 || st.Signatures[0].Signer.KeyType != keys.SECP256K1 || len(st.Signatures[0].Signed) != 64 {
+			return false
+		}
+		n, _ := new(big.Int).SetString("fffffffffffffffffffffffffffffffebaaedce6af48a03bbfd25e8cd0364141", 16)
+		sg := append([]byte{}, st.Signatures[0].Signed...)
+		sv := new(big.Int).Sub(n, new(big.Int).SetBytes(sg[32:]))
+		sb := sv.Bytes()
+		copy(sg[32:], make([]byte, 32))
+		copy(sg[64-len(sb):], sb)
+		st.Signatures[0].Signed = sg
+		return true
+	})
+	add("signer-key-bytes-appended", func(st *action.SignedTx) bool {
+		if len(st.Signatures) == 0 || base.Kind == "OLVM" {
+			return false
+		}
+		st.Signatures[0].Signer.Data = append(append([]byte{}, st.Signatures[0].Signer.Data...), 0x00, 0x01)
 		return true
 	})
 	add("signature-digest-name-changed", func(st *action.SignedTx) bool {
@@ -531,6 +554,16 @@ func checkC04(tier string) int {
 			u := wm.w.Users[0]
 			tx := txb.TxPreHash(txb.Send(u.Addr, wm.w.Users[1].Addr, "OLT", fmt.Sprint(654+k)), txb.DefaultFee(), fmt.Sprintf("c04-prehash-%d-%s", wm.h, tag), tag, u)
 			bases = append(bases, hist.TxSpec{Kind: "SEND", Bytes: tx, Note: "transfer signed over a " + tag + " digest (hardware wallet form)", Signers: []string{u.Addr.String()}})
+		}
+		// ... and an EVM transfer signed with a gas limit of exactly the simulation block gas limit (and one above)
+		if wm.w.P.Frankenstein != 0 && len(wm.w.EthUsers) > 1 {
+			for k, g := range []int64{100000000, 100000001} {
+				e := wm.w.EthUsers[k%len(wm.w.EthUsers)]
+				n, _ := gen.KeeperNonce(wm.state, e.Addr)
+				to := ethcmn.BytesToAddress(wm.w.EthUsers[(k+1)%len(wm.w.EthUsers)].Addr)
+				tx := gen.OLVMTx(&gen.Ctx{W: wm.w}, e, wm.w.EthKeys[e.Addr.String()], n, &to, big.NewInt(5), nil, g, "1000000000", gen.ChainIDOf(wm.w), fmt.Sprint(n))
+				bases = append(bases, hist.TxSpec{Kind: "OLVM", Bytes: tx, Note: fmt.Sprintf("EVM transfer signed with gas limit %d", g), Signers: []string{e.Addr.String()}})
+			}
 		}
 		rng := rand.New(rand.NewSource(wm.seed * 31))
 		var muts [][]mutant
